@@ -262,7 +262,7 @@ class AffineExpr(ABC):
         return self + (-1 * other)
 
     def __rsub__(self, other: AffineExpr | int) -> AffineExpr:
-        return self.__sub__(other)
+        return (-self).__add__(other)
 
     def _simplify_mul(self, other: AffineExpr) -> AffineExpr | None:
         """Simplify multiplication. Constant is assumed to be on RHS."""
